@@ -424,6 +424,14 @@ class Parser:
             return True
 
         if ttype == "left_cbracket":
+            # only a complete control command accepting children opens a block
+            condition = (
+                self.__curcommand.get_type() == "control"
+                and self.__curcommand.accept_children
+                and self.__curcommand.iscomplete()
+            )
+            if not condition:
+                return False
             self.__push_expected_bracket("right_cbracket", b"}")
             self.__cstate = None
             return True
